@@ -23,6 +23,7 @@ KFLT == 2
 KORD == 3
 KUNORD == 4
 KNEST == 5       \* orderable user class that is nested in another class (its qualified name differs from its name)
+KTUP == 7        \* tuple keys: <<KTUP, 2k>> is the 1-tuple (k,), <<KTUP, 2k+1>> the pair (k, 0): (0,) < (0, 0) < (1,) < (1, 0) < ...
 KTIE == 6        \* user class with a WEAK order: KTie(v) < KTie(w) iff v \div 2 < w \div 2; KTie(2r), KTie(2r+1) are distinct keys that tie
 
 \* PyTreeKind enum of the engine (registry.h)
@@ -70,14 +71,14 @@ Concat(ss) == IF ss = <<>> THEN <<>> ELSE Head(ss) \o Concat(Tail(ss))
 IsNumKey(k) == k[1] \in {KINT, KFLT}
 NumVal(k) == IF k[1] = KINT THEN 2 * k[2] ELSE 2 * k[2] + 1      \* FLT v stands for v + 0.5
 Comparable(a, b) == \/ IsNumKey(a) /\ IsNumKey(b)
-                    \/ a[1] = b[1] /\ a[1] \in {KSTR, KORD, KNEST, KTIE}
+                    \/ a[1] = b[1] /\ a[1] \in {KSTR, KORD, KNEST, KTIE, KTUP}
 KeyLt(a, b) == IF IsNumKey(a) /\ IsNumKey(b) THEN NumVal(a) < NumVal(b)
                ELSE IF a[1] = KTIE /\ b[1] = KTIE THEN (a[2] \div 2) < (b[2] \div 2)
                ELSE a[2] < b[2]
 \* rank of f"{type.__module__}.{type.__qualname__}":
-\*   builtins.float < builtins.int < builtins.str < vuniv.KOrd < vuniv.KTie < vuniv.KUnord < vuniv.Wrap.AOrd
-TypeRank(k) == CASE k[1] = KFLT -> 0 [] k[1] = KINT -> 1 [] k[1] = KSTR -> 2 [] k[1] = KORD -> 3 [] k[1] = KTIE -> 4
-                 [] k[1] = KUNORD -> 5 [] k[1] = KNEST -> 6
+\*   builtins.float < builtins.int < builtins.str < builtins.tuple < vuniv.KOrd < vuniv.KTie < vuniv.KUnord < vuniv.Wrap.AOrd
+TypeRank(k) == CASE k[1] = KFLT -> 0 [] k[1] = KINT -> 1 [] k[1] = KSTR -> 2 [] k[1] = KTUP -> 3 [] k[1] = KORD -> 4 [] k[1] = KTIE -> 5
+                 [] k[1] = KUNORD -> 6 [] k[1] = KNEST -> 7
 AllComparable(ks) == \A i, j \in DOMAIN ks : i # j => Comparable(ks[i], ks[j])
 SameTypeComparable(ks) == \A i, j \in DOMAIN ks : (i # j /\ ks[i][1] = ks[j][1]) => Comparable(ks[i], ks[j])
 TypedLt(a, b) == IF TypeRank(a) # TypeRank(b) THEN TypeRank(a) < TypeRank(b) ELSE KeyLt(a, b)
@@ -552,6 +553,7 @@ KeyRepr(k) == CASE k[1] = KINT -> IntRepr(k[2])
                 [] k[1] = KUNORD -> "KUnord(" \o ToString(k[2]) \o ")"
                 [] k[1] = KNEST -> "AOrd(" \o ToString(k[2]) \o ")"
                 [] k[1] = KTIE -> "KTie(" \o ToString(k[2]) \o ")"
+                [] k[1] = KTUP -> IF k[2] % 2 = 0 THEN "(" \o ToString(k[2] \div 2) \o ",)" ELSE "(" \o ToString(k[2] \div 2) \o ", 0)"
 FactoryRepr(f) == CASE f = 0 -> "None" [] f = 1 -> "<class 'list'>" [] f = 2 -> "<class 'int'>"
                     [] f = 3 -> "<function fac3>" [] OTHER -> "<harness.vuniv._HistFactory object>"
 ClassName(c) == CASE c = 1 -> "CA" [] c = 2 -> "CB" [] c = 3 -> "CC" [] c = 4 -> "CU"
